@@ -403,7 +403,7 @@ func genC04(seed uint64, run int, tier string) *Case {
 // (values, positions, tape) still come from the seed.
 
 var c04Shapes = []func(r rng, tier string) *Case{
-	shapeWhereSwitch, shapeTickBetweenNow, shapeTZLiteral, shapePatchShared, shapeStallCompile, shapeClockExact, shapeOrder, shapeTypedCallbacks, shapePatterns, shapeTypeHistory, shapeCallerChanges,
+	shapeWhereSwitch, shapeTickBetweenNow, shapeTZLiteral, shapePatchShared, shapeStallCompile, shapeClockExact, shapeOrder, shapeTypedCallbacks, shapePatterns, shapeTypeHistory, shapeCallerChanges, shapeZoneElements, shapeBigWalk,
 }
 
 func baseShape(r rng, tier, name string, types ...string) *genCtx {
@@ -716,6 +716,126 @@ func shapeCallerChanges(r rng, tier string) *Case {
 				k = "eval"
 			}
 			ops = append(ops, Op{Kind: k, Prog: r.n(len(c.Programs)), Res: []int{0}})
+		}
+		c.Clients = append(c.Clients, ops)
+	}
+	return c
+}
+
+// dstEdges: instants half a day before a daylight-saving change of each simulated zone, with the
+// offset that zone uses at that instant.
+var dstEdges = []struct {
+	zone string
+	sec  int64
+	tz   string
+}{
+	{"America/St_Johns", 1583595000, "-03:30"}, {"America/St_Johns", 1604154600, "-02:30"},
+	{"Pacific/Chatham", 1585952100, "+13:45"}, {"Pacific/Chatham", 1601075700, "+12:45"},
+	{"Europe/Dublin", 1585396800, "+00:00"}, {"Europe/Dublin", 1603537200, "+01:00"},
+	{"Australia/Lord_Howe", 1585962000, "+11:00"}, {"Australia/Lord_Howe", 1601688600, "+10:30"},
+	{"Asia/Kolkata", 1583562600, "+05:30"}, {"UTC", 1583582400, "Z"},
+}
+
+// shapeZoneElements: date/time ELEMENTS of the input (not literals) whose written offset is the one
+// the process zone uses at that instant, at every precision, next to that zone's daylight-saving
+// changes; calendar arithmetic and conversions on them must not depend on the process zone.
+func shapeZoneElements(r rng, tier string) *Case {
+	g := baseShape(r, tier, "zone-elements", pick(r, []string{"Observation", "Patient", "Encounter"}))
+	c := g.c
+	c.Knobs.SwitchThr = 13
+	c.Zones = []string{"UTC", "America/St_Johns", "Pacific/Chatham"}
+	if tier == "thorough" {
+		c.Zones = append(c.Zones, "Europe/Dublin", "Australia/Lord_Howe")
+	}
+	c.MixZone = []string{pick(r, c.Zones), pick(r, c.Zones)}
+	n := 0
+	walkMessages(g.res[0].ProtoReflect(), func(m protoreflect.Message) {
+		d := m.Descriptor()
+		vus, tz, pf := d.Fields().ByName("value_us"), d.Fields().ByName("timezone"), d.Fields().ByName("precision")
+		if vus == nil || tz == nil || pf == nil || d.Name() == "Time" {
+			return
+		}
+		e := pick(r, dstEdges)
+		us := e.sec*1_000_000 + int64(r.n(3))*3600_000_000
+		vals := pf.Enum().Values()
+		pv := vals.Get(1 + r.n(vals.Len()-1))
+		switch string(pv.Name()) {
+		case "MICROSECOND":
+			us += int64(1 + r.n(999999))
+		case "MILLISECOND":
+			us += int64(1+r.n(999)) * 1000
+		}
+		m.Set(vus, protoreflect.ValueOfInt64(us))
+		m.Set(tz, protoreflect.ValueOfString(e.tz))
+		m.Set(pf, protoreflect.ValueOfEnum(pv.Number()))
+		n++
+	})
+	c.Resources[0] = encodeMessage(g.res[0])
+	root := string(g.res[0].ProtoReflect().Descriptor().Name())
+	for _, t := range []string{"dateTime", "instant"} {
+		for _, q := range []string{"1 day", "24 hours", "1 month", "1 week", "1 year", "2 days"} {
+			if r.p(0.5) {
+				c.Programs = append(c.Programs, ProgSpec{Src: fmt.Sprintf("%s.descendants().where($this is %s).select($this %s %s)", root, t, pick(r, []string{"+", "-"}), q)})
+			}
+		}
+		c.Programs = append(c.Programs,
+			ProgSpec{Src: fmt.Sprintf("%s.descendants().where($this is %s).select(($this + 1 day) > $this)", root, t)},
+			ProgSpec{Src: fmt.Sprintf("%s.descendants().where($this is %s).select($this.toString())", root, t)},
+			ProgSpec{Src: fmt.Sprintf("%s.descendants().where($this is %s).select(($this + 1 day).toString())", root, t)},
+			ProgSpec{Src: fmt.Sprintf("%s.descendants().where($this is %s).select($this.toDate())", root, t)})
+	}
+	for ci := 0; ci < 2; ci++ {
+		var ops []Op
+		for pi := range c.Programs {
+			if r.p(0.6) {
+				ops = append(ops, Op{Kind: "eval", Prog: pi, Res: []int{0}})
+			}
+		}
+		if len(ops) == 0 {
+			ops = append(ops, Op{Kind: "eval", Prog: 0, Res: []int{0}})
+		}
+		c.Clients = append(c.Clients, ops)
+	}
+	_ = n
+	return c
+}
+
+// shapeBigWalk: evaluations that visit well over a thousand nodes, with OverrideTime values far
+// from and close to the clock, and ticks in the middle: nothing but now()/today()/timeOfDay() may
+// look at the clock, so a long walk must behave the same whatever the clock shows.
+func shapeBigWalk(r rng, tier string) *Case {
+	g := &genCtx{r: r, tier: tier, c: &Case{Shape: "big-walk"}, vkind: map[string]int{}}
+	rg := &resGen{r: r, maxDepth: 5, fill: 0.75, budget: 900}
+	m := rg.genResource(pick(r, []string{"Patient", "Questionnaire", "Bundle"}))
+	g.res = append(g.res, m)
+	g.c.Resources = append(g.c.Resources, encodeMessage(m))
+	g.stdCallbacks()
+	g.c.Zones = []string{"UTC", "America/St_Johns"}
+	g.genClock()
+	g.genTape(800)
+	c := g.c
+	c.Knobs.SwitchThr = 13
+	root := string(m.ProtoReflect().Descriptor().Name())
+	opts := []COpt{{Kind: "fn", Name: "t1", Fn: "tick:45000"}}
+	c.Programs = []ProgSpec{
+		{Src: root + ".descendants().count()"}, {Src: root + ".descendants().descendants().count() > 0"},
+		{Src: root + ".children().t1().descendants().count()", Opts: opts}, {Src: root + ".descendants().where($this is string).count()"},
+		{Src: root + ".repeat(children()).count()"},
+	}
+	startMs := int64(946684800000) + c.ClockMs // the bubble starts at 2000-01-01T00:00:00Z
+	for ci := 0; ci < 2; ci++ {
+		var ops []Op
+		for oi := 0; oi < 3; oi++ {
+			op := Op{Kind: "eval", Prog: r.n(len(c.Programs)), Res: []int{0, 0, 0}}
+			switch r.n(4) {
+			case 0:
+				op.Opts = []EOpt{{Kind: "time", TimeMs: startMs - int64(r.n(20000))}} // just behind the clock
+			case 1:
+				op.Opts = []EOpt{{Kind: "time", TimeMs: pick(r, instantVocabSec) * 1000}} // far from the clock
+			case 2:
+				op.Opts = []EOpt{{Kind: "time", TimeMs: startMs + int64(r.n(20000))}} // just ahead of the clock
+			}
+			ops = append(ops, op)
 		}
 		c.Clients = append(c.Clients, ops)
 	}
